@@ -16,29 +16,29 @@ theorem consts_match_model_maxLen :
 
 /-- `Send`: refuses above the limit, otherwise writes header ++ payload -/
 theorem consts_match_model_send (payload : Bytes) :
-    send payload = if payload.length > ConstsC11.send_limit then .err else .ok (header payload.length ++ payload) := rfl
+    send payload = if payload.length > ConstsC11.send_limit then .err else .ok (header payload.length ++ payload) := by exact rfl
 
 /-- the four header bytes: message type, then shift and mask of each length byte -/
 theorem consts_match_model_header (n : Nat) :
     header n = [UInt8.ofNat ConstsC11.sessionMessage,
                 UInt8.ofNat ((n >>> ConstsC11.send_b1_shift) &&& ConstsC11.send_b1_mask),
                 UInt8.ofNat ((n >>> ConstsC11.send_b2_shift) &&& ConstsC11.send_b2_mask),
-                UInt8.ofNat (n &&& ConstsC11.send_b3_mask)] := rfl
+                UInt8.ofNat (n &&& ConstsC11.send_b3_mask)] := by exact rfl
 
 theorem consts_match_model_header_shape :
     [ConstsC11.send_type_shape, ConstsC11.send_b1_shape, ConstsC11.send_b2_shape, ConstsC11.send_b3_shape, ConstsC11.send_packet_shape]
       = ["(append header (byte netbios.SESSION_MESSAGE))", "(append header (byte (& (>> length 16) 1)))",
-         "(append header (byte (& (>> length 8) 255)))", "(append header (byte (& length 255)))", "(append header data)"] := rfl
+         "(append header (byte (& (>> length 8) 255)))", "(append header (byte (& length 255)))", "(append header data)"] := by exact rfl
 
 /-- `Receive`: extension-bit mask and the two shifts of the length -/
 theorem consts_match_model_lengthOf (h1 h2 h3 : UInt8) :
     lengthOf h1 h2 h3
       = ((h1 &&& UInt8.ofNat ConstsC11.recv_len_mask).toNat <<< ConstsC11.recv_len_shift1)
-          ||| (h2.toNat <<< ConstsC11.recv_len_shift2) ||| h3.toNat := rfl
+          ||| (h2.toNat <<< ConstsC11.recv_len_shift2) ||| h3.toNat := by exact rfl
 
 theorem consts_match_model_lengthOf_shape :
     ConstsC11.recv_len_shape
-      = "(| (| (<< (int (& (index header 1) 1)) 16) (<< (int (index header 2)) 8)) (int (index header 3)))" := rfl
+      = "(| (| (<< (int (& (index header 1) 1)) 16) (<< (int (index header 2)) 8)) (int (index header 3)))" := by exact rfl
 
 /-- `Receive`: header size, which header byte is the type and which three the length, the accepted type -/
 theorem consts_match_model_receive (s : Stream) :
@@ -61,6 +61,6 @@ theorem consts_match_model_receive (s : Stream) :
         | _, _, _, .panic => .panic
         | _, _, _, _ => .err
       | .err => .err
-      | .panic => .panic := rfl
+      | .panic => .panic := by exact rfl
 
 end Manticore.C11
